@@ -6,6 +6,7 @@ Driver for C11.
   then ` | ` and the same for the rightmost-first/one-byte schedule (only run when some stage has a limit).
 * `C11 wait <pipefail 0|1> <bang 0|1> <code>…` → `<status> <c1,c2,…>`
 * `C11 strip <esc text>` → `<esc stripped>`
+* `C11 cstat <prior> <a|c<st>> <code>…` → `$?` after an assignment-only command / a command with substitutions
 * `C11 read <k> <esc text>` → `<esc line1> … <esc linek> <esc rest>`
 -/
 namespace BrushVerif.Drv.C11
@@ -91,6 +92,19 @@ def handle (toks : List Str) : Str :=
       let r := readLines k (unesc t)
       joinWith [' '] (r.1.map esc ++ [esc r.2])
     | none => "bad-read".toList
+  | ['c','s','t','a','t'] :: prior :: kind :: cs =>
+    -- `C11 cstat <prior $?> <a | c<status>> <substitution status>…` → `$?` afterwards
+    match parseNat? prior, cs.mapM parseNat? with
+    | some p, some cs =>
+      let r : StatusReg := { status := p, changes := 0 }
+      match kind with
+      | ['a'] => natToStr (statusAfter r cs .assignOnly).status
+      | 'c' :: st =>
+        match parseNat? st with
+        | some st => natToStr (statusAfter r cs (.command st)).status
+        | none => "bad-cstat".toList
+      | _ => "bad-cstat".toList
+    | _, _ => "bad-cstat".toList
   | _ => "bad-request".toList
 
 end BrushVerif.Drv.C11
